@@ -41,12 +41,12 @@ def run(rep, work, tier, seed):
         leg_mutant(rep, work, SPEC, "mutant_no_parent_notify",
                    cfg_text(dict(small, Bug="no_parent_notify"), invariants=INVS), ["CompletionIffSubtreeLeft"])
     leg_r(rep, work, SPEC, f"conf_{tier}", cfg_text(conf, invariants=INVS), lambda: MetricsDriver(["Cat"]),
-          internal=INTERNAL)
+          internal=INTERNAL, world=True)
     # three tasks sharing one inherited scope (children in plain tasks that outlive it, opened while an earlier
     # child is still open): needs 7-8 operations, explored on sync scopes only to keep the graph small
     wide = dict(NTasks=3, N=3, MaxOps=7 if tier == "quick" else 8, MaxRec=0, MaxT=0, MTypes=["Cat"], Kinds=["s"], Bug="none")
     leg_r(rep, work, SPEC, f"conf_wide_{tier}", cfg_text(wide, invariants=INVS), lambda: MetricsDriver(["Cat"]),
-          internal=INTERNAL)
+          internal=INTERNAL, world=True)
     # leg T: random programs over 4 tasks / 8 scopes recorded from the real library, validated by a trace module
     # generated from Metrics.tla (callbacks run as silent internal steps between the logged events)
     rnd = random.Random(seed * 19 + 5)
